@@ -154,7 +154,7 @@ Print Assumptions C17_contents_untabulated_refuted.
    object itself carries the new ID ... *)
 Theorem C17_balance_new_id_on_stored : forall L v o i,
   fst (lcreate v) = SOk ->
-  fst (bal_batches OffsetTable.offset_table (l_offs L o) (Offsets.f_batches (lf_off (snd (lcreate v))))) = true ->
+  fst (bal_batches OffsetTable.offset_table (l_offs L o) (l_balv L (snd (lcreate v))) 0 (Offsets.f_batches (lf_off (snd (lcreate v))))) = true ->
   lf_id (lbal OffsetTable.offset_table L v o i) = i.
 Proof. exact (lbal_ok_id OffsetTable.offset_table). Qed.
 Print Assumptions C17_balance_new_id_on_stored.
